@@ -20,8 +20,10 @@ import (
 type Collection struct {
 	*config
 
-	mu   sync.RWMutex // protects byId and rng from concurrent access
+	mu   sync.RWMutex // protects byId from concurrent access
 	byId map[string]*item
+	// rngMu protects rng. Ids are generated while holding only mu.RLock, which does not exclude other generators.
+	rngMu sync.Mutex
 	// "change" events contain a *CollectionChange instance
 	bus minibus.Bus
 	pub publishQueue // orders publications on bus to match commit order
@@ -373,6 +375,8 @@ func (c *Collection) itemSlice(readConfig *ReadRequest) []idItem {
 }
 
 func (c *Collection) genID() (string, error) {
+	c.rngMu.Lock()
+	defer c.rngMu.Unlock()
 	return GenerateUniqueId(c.rng, func(candidate string) bool {
 		if c.idInterceptor != nil {
 			candidate = c.idInterceptor(candidate)
